@@ -9,6 +9,15 @@ from ..loader import AnalysisError
 CACHE_CLASS = "storage_base.MemoryCache"
 
 
+def assign_pairs(st):
+    """(target, value) pairs bound by a plain or an annotated assignment statement (`x = v`, `x: T = v`, `a = b = v`)."""
+    if isinstance(st, ast.Assign):
+        return [(t, st.value) for t in st.targets]
+    if isinstance(st, ast.AnnAssign) and st.value is not None:
+        return [(st.target, st.value)]
+    return []
+
+
 def self_attr(node, name=None) -> Optional[str]:
     """`self.x` -> 'x' (optionally require x == name)."""
     if isinstance(node, ast.Attribute) and isinstance(node.value, ast.Name) and node.value.id == "self":
@@ -29,11 +38,10 @@ class CacheModel:
         maps, queues, counters, budgets, weak, locks = [], [], [], [], [], []
         init_params = set(init.params) - {"self"}
         for st in A.all_stmts(init.node):
-            if isinstance(st, ast.Assign) and len(st.targets) == 1:
-                f = self_attr(st.targets[0])
+            for (tg, v) in assign_pairs(st):
+                f = self_attr(tg)
                 if not f:
                     continue
-                v = st.value
                 if isinstance(v, ast.Call):
                     d = (A.dotted(v.func) or "").split(".")[-1]
                     if d in ("dict", "OrderedDict"):
